@@ -641,6 +641,33 @@ func (ex *Exec) scriptFor(o *Obligation, extra *Term) *Script {
 // knownClass evaluates the class expression of a known finding in the entry state of its function
 // and returns its negation (the query then asks for a failure outside the class).
 func (ex *Exec) knownClass(kf *KnownFinding, W *World) (*Term, error) {
+	for _, lm := range W.lemmas {
+		if strings.HasPrefix(kf.Obligation, lm.Pkg+".lemma:"+lm.Name+"/") {
+			ld, err := parseLemma(lm.LemmaText)
+			if err != nil {
+				return nil, err
+			}
+			st := &State{pc: ex.f.True(), heap: map[string]*Term{}, gen: 0, frontier: ex.f.Var("A0", SInt), world: ex.f.Var("world0", SInt)}
+			ctx := ex.newEvalCtx(nil, st, st)
+			for _, p := range ld.params {
+				s := SInt
+				switch p.typ {
+				case "Bool", "bool":
+					s = SBool
+				case "Str", "string":
+					s = SStr
+				case "Real":
+					s = SReal
+				}
+				ctx.vars[p.name] = CV{ex.f.Var("l."+p.name, s), nil}
+			}
+			t, err := ctx.evalBool(kf.Class)
+			if err != nil {
+				return nil, err
+			}
+			return ex.f.Not(t), nil
+		}
+	}
 	var ct *Contract
 	for _, c := range W.contracts {
 		if strings.HasPrefix(kf.Obligation, c.Key()+"/") {
